@@ -125,7 +125,8 @@ def run(ctx, rep, tier):
             strict = chmod_fold(clauses, ())
             allowed = chmod_fold(clauses, dev)
             tag = "clauses:%s%s" % (prefix or "=", "+".join("%dx%d" % s for s in shape))
-            bad = b_or(other, b_not(kinds[kind]), bits != allowed)
+            # neither the chmod result nor the recorded deviation of it (a result equal to chmod's is right even where the deviation applies)
+            bad = b_or(other, b_not(kinds[kind]), z3.And(bits != allowed, bits != strict))
             res, m = B.solve(tag, r.assume, bad)
             if res == z3.sat:
                 report(B, rep, "symbolic", model_string(m, spec), kind, m.eval(strict, model_completion=True).as_long())
